@@ -252,6 +252,9 @@ impl Property for C11 {
             let _ = root.as_string_value();
             for c in root.child_nodes().iter() {
                 let _ = c.node_value();
+                if let xml_dom::XmlNode::EntityReference(e) = &c {
+                    let _ = e.value();
+                }
             }
         }
         let expected: Vec<(String, String, bool)> = case["attrs"]
